@@ -57,6 +57,17 @@ type DkgScenario struct {
 	// concurrent arrival): StormWorkers streams per side
 	StormMs      int `json:"storm_ms"`
 	StormWorkers int `json:"storm_workers"`
+	// ConcGens: generations requested AT THE SAME TIME of (possibly different) instances of the cluster (DkgConc.tla)
+	ConcGens []ConcGen `json:"conc_gens"`
+	JitterUs int       `json:"jitter_us"` // every message between instances is delayed by a random time below this (seeded per scenario id)
+}
+
+// ConcGen is one of several generations that run concurrently.
+type ConcGen struct {
+	Initiator uint64 `json:"initiator"`
+	N         uint32 `json:"n"`
+	T         uint32 `json:"t"`
+	Account   string `json:"account"`
 }
 
 // PriorGen describes the earlier generation of the same name.
@@ -209,6 +220,10 @@ func RunDkgScenario(ctx context.Context, sc *DkgScenario, log *Log) error {
 
 	if sc.StormMs > 0 {
 		c.storm(ctx, sc, log)
+	}
+	if len(sc.ConcGens) > 0 {
+		c.JitterUs = sc.JitterUs
+		c.concGens(ctx, sc, client, log)
 	}
 
 	// ---- a complete generation driven by the initiator
@@ -732,4 +747,70 @@ func (c *Cluster) storm(ctx context.Context, sc *DkgScenario, log *Log) {
 	}
 	wg.Wait()
 	log.Emit(Ev{"ev": "StormEnd", "peer_calls": atomic.LoadInt64(&peerCalls), "peer_ok": atomic.LoadInt64(&peerOK), "non_peer_calls": atomic.LoadInt64(&intruderCalls), "crashed": in.Crashed != ""})
+}
+
+// concGens asks for several generations at the same time and reports, per generation, what the client was told and what every
+// instance holds under that name afterwards.
+func (c *Cluster) concGens(ctx context.Context, sc *DkgScenario, client string, log *Log) {
+	type outT struct {
+		res  *pb.GenerateResponse
+		err  error
+		hung bool
+	}
+	outs := make([]outT, len(sc.ConcGens))
+	var wg sync.WaitGroup
+	start := make(chan struct{})
+	for gi, g := range sc.ConcGens {
+		in := c.Inst[g.Initiator]
+		if in == nil {
+			outs[gi].err = fmt.Errorf("unknown initiator %d", g.Initiator)
+			continue
+		}
+		wg.Add(1)
+		go func(gi int, g ConcGen, in *Instance) {
+			defer wg.Done()
+			<-start
+			ch := make(chan outT, 1)
+			go func() {
+				var r0 *pb.GenerateResponse
+				var e0 error
+				_ = c.deliver(in, "Generate", func() error {
+					r0, e0 = in.St.AcctH.Generate(credsCtx(ctx, client, ""), roundTrip(&pb.GenerateRequest{Account: g.Account, Passphrase: []byte("pass"),
+						Participants: g.N, SigningThreshold: g.T}, &pb.GenerateRequest{}))
+					return nil
+				})
+				ch <- outT{res: r0, err: e0}
+			}()
+			select {
+			case o := <-ch:
+				outs[gi] = o
+			case <-time.After(40 * time.Second):
+				outs[gi] = outT{err: fmt.Errorf("no answer after 40 s"), hung: true}
+			}
+		}(gi, g, in)
+	}
+	close(start)
+	wg.Wait()
+	for gi, g := range sc.ConcGens {
+		o := outs[gi]
+		ok := o.err == nil && o.res != nil && o.res.GetState() == pb.ResponseState_SUCCEEDED
+		ev := Ev{"ev": "ConcOutcome", "g": gi, "account": g.Account, "initiator": g.Initiator, "ok": ok, "hung": o.hung, "n": g.N, "t": g.T}
+		parts := []uint64{}
+		if o.res != nil {
+			ev["message"] = o.res.GetMessage()
+			ev["pubkey"] = hex.EncodeToString(o.res.GetPublicKey())
+			for _, p := range o.res.GetParticipants() {
+				parts = append(parts, p.GetId())
+			}
+		}
+		sort.Slice(parts, func(i, j int) bool { return parts[i] < parts[j] })
+		ev["participants"] = parts
+		log.Emit(ev)
+		for _, id := range c.Order {
+			info := c.Inspect(ctx, c.Inst[id], g.Account)
+			log.Emit(Ev{"ev": "ConcHolds", "g": gi, "inst": id, "present": info.Present, "in_fetcher": info.InFetcher, "composite": info.Composite, "share": info.Share,
+				"threshold": info.Threshold, "vvec": info.VVec, "nvvec": len(info.VVec), "participants": info.Participants, "share_ok": info.ShareOK,
+				"crashed": c.Inst[id].Crashed != ""})
+		}
+	}
 }
